@@ -32,7 +32,7 @@ use std::sync::{Arc, Condvar, Mutex};
 use std::time::{Duration, Instant};
 
 const T_STUCK: Duration = Duration::from_millis(250);
-const T_EXECUTION: Duration = Duration::from_secs(20);
+const T_EXECUTION: Duration = Duration::from_secs(60);
 const MAX_STEPS: usize = 200_000;
 
 // ---------------------------------------------------------------------------------------------
@@ -578,8 +578,8 @@ fn execute(jobs: &[Job], prefix: &[usize], shared_locks: &BTreeSet<LockId>) -> E
             if !any_stuck {
                 g.schedule(None);
                 shared.cv.notify_all();
-            } else if g.turn_since.elapsed() > Duration::from_secs(5) {
-                // workers blocked in something invisible for 5 s while nobody else can run
+            } else if g.turn_since.elapsed() > Duration::from_secs(30) {
+                // workers blocked in something invisible for 30 s while nobody else can run
                 let desc: Vec<String> = g.status.iter().enumerate().map(|(i, s)| format!("w{}: {:?}", i, s)).collect();
                 g.deadlock = Some(format!("no worker can run and the blocked ones never return: {}", desc.join("; ")));
                 g.abort = true;
